@@ -60,6 +60,17 @@ func findStylesheetsRules(rules []pa.Compound, baseUrl string) (out []pa.Qualifi
 					url = urlToken.Value
 				case pa.URL:
 					url = urlToken.Value
+				case pa.FunctionBlock:
+					// the quoted form url("...") is a function token
+					args := pa.RemoveWhitespace(urlToken.Arguments)
+					if utils.AsciiLower(urlToken.Name) != "url" || len(args) != 1 {
+						continue
+					}
+					quoted, ok := args[0].(pa.String)
+					if !ok {
+						continue
+					}
+					url = quoted.Value
 				default:
 					continue
 				}
